@@ -5,6 +5,7 @@ pub mod journal;
 pub mod report;
 pub mod sandbox;
 pub mod spy;
+pub mod zoo;
 
 #[global_allocator]
 static GLOBAL: alloc::CountingAlloc = alloc::CountingAlloc;
